@@ -302,7 +302,10 @@ EXTRA = ['C', 'CC', 'C=C', 'C#N', 'c1ccccc1', 'C1CC1', 'C%10CC%10', 'C12CC1C2', 
          '[se]1cccc1', '[te]1cccc1', '[as]1ccccc1', 'C1CC2', 'C12CC1', 'C1(CC1', 'C1CC1)', 'C1C(C1', '[C@@](F)(Cl)(Br)I', '[C@@@H](F)(Cl)Br', 'C[C@@H]', '[C@H]', 'N1CC1(C)', 'C1.C1', 'C1.CC1', 'CC.1C1',
          # atom maps: repeated numbers inside one molecule, across molecules and roles, gaps, large numbers; mapped atoms in every role
          '[CH3:1][CH2:1]O', '[CH3:1][CH2:1]O>>CC=O', '[CH3:1][CH2:1]O>>[CH3:1][CH:1]=O', '[CH3:1]C.[CH3:1]O>>CC', '[CH3:1][CH2:2]O>>[CH3:1][CH:2]=O', '[CH3:7][CH2:3]O>[OH2:7]>[CH3:3][CH:7]=O',
-         '[CH3:1][CH2:1][OH:1]>>[CH3:1][CH:1]=[O:1]', '[CH3:999]C', '[CH3:0]C', '[CH3:2][CH3:1]', 'C[CH2:5]O>>C[CH:5]=O', '[CH3:1]C>>', '>>[CH3:1]C', '>[CH3:1][CH3:1]>']
+         '[CH3:1][CH2:1][OH:1]>>[CH3:1][CH:1]=[O:1]', '[CH3:999]C', '[CH3:0]C', '[CH3:2][CH3:1]', 'C[CH2:5]O>>C[CH:5]=O', '[CH3:1]C>>', '>>[CH3:1]C', '>[CH3:1][CH3:1]>',
+         # stereo marks on mapped atoms: the map numbers run against the writing order
+         '[CH3:9][C@H:1](F)Cl', '[C@H:9]([F:1])(Cl)Br', '[C@@H:2]([CH3:1])(F)Cl', 'F[C@H:1]([CH3:5])Cl', '[CH3:3][C@:2]([F:1])(Cl)Br', '[F:4][C@:1]([Cl:3])([Br:2])I', '[CH3:9][C@H:1](F)Cl>>[CH3:9][C@@H:1](F)Cl',
+         '[CH3:5]/[CH:4]=[CH:3]/[CH3:1]', '[CH3:1][CH:2]=[C@:9]=[CH:3][CH3:4]', '[C@H:9]1([CH3:1])[CH2:8][CH2:2][O:3]1']
 
 
 def run_extra(shard):
